@@ -65,10 +65,30 @@ def lean_str(s):
     return '"' + s.replace("\\", "\\\\").replace('"', '\\"') + '"'
 
 
+def lean_ty(t, structs):
+    """Rust field type -> Momtrop.SerdeG.Ty (what the schema-generic round-trip theorem covers)"""
+    t = t.replace(" ", "")
+    m = re.fullmatch(r"Vec<(.+)>", t)
+    if m:
+        return f"(.seq {lean_ty(m.group(1), structs)})"
+    if t in ("u8", "u16", "u32", "u64", "usize"):
+        return ".nat"
+    if t in ("i8", "i16", "i32", "i64", "isize"):
+        return ".int"
+    if t == "f64":
+        return ".f64"
+    if t == "bool":
+        return ".bool"
+    if t in structs:
+        return f"(.struct {lean_str(t)})"
+    return f"(.other {lean_str(t)})"
+
+
 def emit_lean(structs, manual):
     order = ["SampleGenerator", "TropicalSubgraphTable", "TropicalSubgraphTableEntry", "TropicalGraph", "TropicalEdge"]
     names = [n for n in order if n in structs] + sorted(n for n in structs if n not in order)
-    out = ["/-! GENERATED on every run by /verif/mtv/serde_schema.py from /repo/src/lib.rs and /repo/src/preprocessing.rs — do not edit. -/",
+    out = ["import Momtrop.Model.SerdeG",
+           "/-! GENERATED on every run by /verif/mtv/serde_schema.py from /repo/src/lib.rs and /repo/src/preprocessing.rs — do not edit. -/",
            "namespace Momtrop.Generated", "",
            "/-- (struct, [(field, type, [serde attributes])]) in source order -/",
            "def serdeSchema : List (String × List (String × String × List String)) := ["]
@@ -81,6 +101,12 @@ def emit_lean(structs, manual):
             "def serdeCustomisations : List String := [" + ", ".join(lean_str(m) for m in manual + [f"{n}: {a}" for n in names for a in structs[n]["attrs"]]) + "]",
             "", "/-- structs deriving both Serialize and Deserialize -/",
             "def serdeBoth : List String := [" + ", ".join(lean_str(n) for n in names if structs[n]["serialize"] and structs[n]["deserialize"]) + "]",
+            "", "/-- the same schema with parsed field types: the argument of the schema-generic round-trip theorem (Props/C18G) -/",
+            "def typedSchema : Momtrop.SerdeG.Schema := [",
+            ",\n".join("  (" + lean_str(n) + ", [" + ", ".join(f"({lean_str(f['name'])}, {lean_ty(f['type'], structs)})" for f in structs[n]["fields"]) + "])"
+                       for n in names if structs[n]["serialize"] and structs[n]["deserialize"]) + "]",
+            "", "/-- every serde attribute on a field of these structs -/",
+            "def fieldAttrs : List String := [" + ", ".join(lean_str(a) for n in names for f in structs[n]["fields"] for a in f["attrs"]) + "]",
             "", "end Momtrop.Generated", ""]
     path = os.path.join(LEAN_DIR, "Momtrop", "Generated", "SerdeSchema.lean")
     os.makedirs(os.path.dirname(path), exist_ok=True)
